@@ -15,7 +15,7 @@ from ..calls import bind_counts, bind_call, swapped_names
 from .C12 import is_effect_on, WRITE_EFFECTS
 
 FILESET = "typhon/files/fileset.py"
-EXPECT = {"C11.bind": 4, "C11.delete": 3, "C11.move": 5, "C11.write": 6, "C11.handlers": 3, "C11.items": 2}
+EXPECT = {"C11.bind": 4, "C11.delete": 3, "C11.move": 5, "C11.write": 7, "C11.pure": 2, "C11.handlers": 3, "C11.items": 2}
 
 
 def _method_ref(ctx, node):
@@ -337,9 +337,71 @@ def rule_items(ctx):
     ctx.ob("FileSet.__getitem__.slice", okg, "%s" % (norm(c[0]) if c else None), "self.collect(slice.start, slice.stop, filters=filters)", node=c[0] if c else g.node, func=g)
 
 
+def rule_ncmode(ctx):
+    ctx.rule("C11.write", "T1 typestate", "NetCDF4.write: the first group written opens the file in the caller's mode, every later group appends")
+    f = ctx.func("typhon/files/handlers/common.py", "NetCDF4.write")
+    flow = Flow(f)
+    tn = [c for c in calls_in(f.node, "to_netcdf")]
+    if len(tn) != 1:
+        raise AnalysisError("NetCDF4.write: expected one to_netcdf(...) call")
+    c = tn[0]
+    lp, _ = None, None
+    n_ = parent(enclosing_stmt(c))
+    while n_ is not None and not isinstance(n_, (ast.For, ast.FunctionDef)):
+        n_ = parent(n_)
+    if not isinstance(n_, ast.For):
+        raise AnalysisError("NetCDF4.write: to_netcdf is not called in the loop over the groups")
+    lp = n_
+    mode = next((k.value for k in c.keywords if k.arg == "mode"), None)
+    if mode is None:
+        raise AnalysisError("NetCDF4.write: to_netcdf called without mode=")
+    if isinstance(mode, ast.Name):
+        r_ = flow.single_def_value(mode.id, c)
+        if r_ is not None:
+            mode = r_[0]
+    um = [st for st in flow.stmts if isinstance(st, ast.Assign) and isinstance(st.targets[0], ast.Name) and calls_in(st.value, "pop") and "'mode'" in norm(st.value).replace('"', "'")]
+    uname = um[0].targets[0].id if um else None
+    loopvars = {n2.id for n2 in ast.walk(lp.target) if isinstance(n2, ast.Name)}
+    ok = False
+    fact = norm(mode)
+    if isinstance(mode, ast.IfExp) and uname:
+        tvars = {n2.id for n2 in ast.walk(mode.test) if isinstance(n2, ast.Name)}
+        arms_ = {norm(mode.body).replace('"', "'"), norm(mode.orelse).replace('"', "'")}
+        if arms_ != {"'a'", uname}:
+            ok = False
+        elif len(tvars) == 1:
+            flag = list(tvars)[0]
+            # a flag that is False before the loop and set to True after the write ...
+            init = [d_ for d_ in flow.defs(flag, lp) if d_ != "param" and not any(d_ is x for x in ast.walk(lp))]
+            sets = [st for st in lp.body if isinstance(st, ast.Assign) and norm(st.targets[0]) == flag]
+            is_flag = len(init) == 1 and isinstance(init[0], ast.Assign) and norm(init[0].value) == "False" and len(sets) == 1 and norm(sets[0].value) == "True" \
+                and flow._order(sets[0]) > flow._order(enclosing_stmt(c)) and norm(mode.test) == flag and norm(mode.body).replace('"', "'") == "'a'"
+            # ... or the position of the group in the iteration (enumerate index)
+            it = lp.iter
+            is_index = isinstance(it, ast.Call) and dotted(it.func) == "enumerate" and isinstance(lp.target, ast.Tuple) and norm(lp.target.elts[0]) == flag \
+                and ((norm(mode.test).replace(" ", "") in ("%s>0" % flag, "0<%s" % flag, flag, "%s!=0" % flag) and norm(mode.body).replace('"', "'") == "'a'")
+                     or (norm(mode.test).replace(" ", "") in ("%s==0" % flag, "not%s" % flag) and norm(mode.orelse).replace('"', "'") == "'a'"))
+            if is_flag or is_index:
+                ok = True
+            elif flag in loopvars and not is_index:
+                ok = False
+                fact += "  [the mode depends on WHICH group is written, not on whether the file was opened before]"
+            else:
+                raise AnalysisError("NetCDF4.write: mode selection %s not understood" % norm(mode))
+        else:
+            raise AnalysisError("NetCDF4.write: mode selection %s not understood" % norm(mode))
+    else:
+        raise AnalysisError("NetCDF4.write: mode %s is not a selection between the caller's mode and 'a'" % norm(mode))
+    ctx.ob("NetCDF4.write.mode", ok, "mode = %s" % fact, "'a' if a group was already written in this call else the caller's mode ('w' by default): one file, all groups kept, old content replaced",
+           node=c, func=f)
+
+
 def run(ctx):
-    for r in (rule_bind, rule_delete, rule_move, rule_write, rule_handlers, rule_items):
+    for r in (rule_bind, rule_delete, rule_move, rule_write, rule_handlers, rule_items, rule_ncmode):
         ctx.attempt(r, ctx)
+    from ..purity import rule_pure
+    ctx.attempt(rule_pure, ctx, "C11.pure", [(FILESET, "FileSet.read"), (FILESET, "FileSet.write")],
+                "read / write leave the FileInfo they were given unchanged (find() hands out the cached objects themselves)")
     # the worker-argument selection rule is shared with C10 (delete/move act on the selection it builds)
     from .C10 import rule_args
     ctx.attempt(rule_args, ctx)
